@@ -74,6 +74,9 @@ pub fn spawn(
                 // Phase 5: Write Confirmation
                 let mut confirmation_count = confirmed_replicas.len() as u8;
 
+                #[cfg(sierradb_verif)]
+                crate::verif::point("coord.before_confirm", &[partition_id as u64]);
+
                 // CRITICAL: Set confirmations with retry logic
                 match set_confirmations_with_retry(
                     &config.database,
